@@ -2,6 +2,9 @@ package sim
 
 import (
 	"fmt"
+	"os"
+	"path/filepath"
+	"runtime"
 	"sort"
 	"strings"
 	"sync/atomic"
@@ -437,6 +440,15 @@ func (w *World) Settle() (*Snap, error) {
 					return s, &StuckError{Pending: []string{"the scheduler loops did not iterate and a canary goroutine of the harness was starved as well"}, Waited: waited, Starved: true}
 				}
 				if changes == 0 {
+					// Nothing is owed, nothing happened, the harness itself gets the processor, no loop is held -
+					// and yet a scheduler loop has not come round for 15 s. The loop blocks on nothing but the
+					// runner's lock (a blocked runner is caught by the stall limit) and a 2 us sleep, so this is
+					// not something the code under test can do wrong: no verdict. The goroutine stacks go to the
+					// log for a later look.
+					dumpStacks()
+					return s, &StuckError{Pending: []string{"a scheduler loop did not come round although nothing blocks it"}, Waited: waited, Starved: true}
+				}
+				if false {
 					detail := ""
 					w.mu.Lock()
 					for _, m := range w.liveLoopsLocked() {
@@ -484,4 +496,14 @@ func harnessStarved() bool {
 		time.Sleep(time.Microsecond)
 	}
 	return time.Since(t0) > 2*time.Second
+}
+
+func dumpStacks() {
+	dir := os.Getenv("VERIF_WORK")
+	if dir == "" {
+		return
+	}
+	buf := make([]byte, 4<<20)
+	n := runtime.Stack(buf, true)
+	_ = os.WriteFile(filepath.Join(dir, fmt.Sprintf("stalled-loop-%d.stacks.txt", time.Now().UnixNano())), buf[:n], 0o666)
 }
